@@ -36,6 +36,8 @@ def plan(tier, seed):
         cases += [{'family': fam, 'cseed': rnd.randrange(1 << 30), 'want': feat} for _ in range(k)]
     # matrix (Connectivity) edges with discrete delays on and off the step grid (machinery shared with C16)
     cases += [{'family': 'matrix', 'cseed': rnd.randrange(1 << 30)} for _ in range(40 if tier == 'quick' else 1000)]
+    # all delayed edges of the model share one delay - the usual way delays are specified
+    cases += [{'family': 'uniform_delay', 'cseed': rnd.randrange(1 << 30)} for _ in range(40 if tier == 'quick' else 1000)]
     return cases
 
 
@@ -104,11 +106,13 @@ def make_case(case, ctx):
                 continue
             pfrac = rnd.choice([0.3, 0.6, 1.0])
             nd = 0
+            uniform = case.get('family') == 'uniform_delay'
+            common = round((rnd.randint(2, 9) + rnd.choice([0.0, 0.0, 0.3, -0.3, 0.45])) * dt, 7)
             for e in edges:
                 if rnd.random() < pfrac:
                     d = rnd.randint(2, 9)
                     frac = rnd.choice([0.0, 0.0, 0.3, -0.3, 0.45])
-                    e[3]['delay'] = round((d + frac) * dt, 7)
+                    e[3]['delay'] = round((d + frac) * dt, 7) if not uniform else common
                     nd += 1
             if want == 'two_delayed_same_pair' and edges:
                 e = rnd.choice(edges)
